@@ -1071,6 +1071,15 @@ func (rl *Shell) shellBackwardKillWord() {
 	rl.cursor.ToFirstNonSpace(true)
 	bpos = rl.cursor.Pos()
 
+	// Skipping blanks forward might have brought us past where
+	// we started (only blanks before the cursor): nothing to kill.
+	if bpos >= startPos {
+		rl.cursor.Set(startPos)
+		rl.selection.Reset()
+
+		return
+	}
+
 	rl.Buffers.Write([]rune((*rl.line)[bpos:startPos])...)
 	rl.line.Cut(bpos, startPos)
 	rl.selection.Reset()
